@@ -200,16 +200,7 @@ func (g *gen) baseDisk(s *sut, which int) []Ent {
 }
 
 func (g *gen) dirEntry(s *sut, src int, name, content string, decodable bool) PEntry {
-	var dir string
-	switch src {
-	case aFlows:
-		dir = s.L.flows
-	case aQuotas:
-		dir = s.L.quotas
-	case aPathParams:
-		dir = s.L.pathParams
-	}
-	ta, tr := s.classify(filepath.Join(dir, name))
+	ta, tr := s.classify(filepath.Join(s.dirOf(src), name))
 	return PEntry{Src: src, Name: name, TArea: ta, TRel: tr, Content: s.register(ta, tr, content), Decodable: decodable}
 }
 
@@ -272,6 +263,53 @@ func (g *gen) fixed(s *sut) []triple {
 	add("name-escaping-the-directories", 1, g.dirEntry(s, aFlows, "../../outside/evil.yaml", "evil: true\n", true),
 		g.badFlowEntry(s, 1, 0))
 	add("name-escaping-ok", 1, g.dirEntry(s, aQuotas, "../../outside/other.yaml", "other: 1\n", true), g.flowEntry(s, 2, 2, true))
+	add("name-escaping-one-level", 1, g.flowEntry(s, 1, 2, true), g.flowEntry(s, 3, 1, true),
+		g.dirEntry(s, aQuotas, "../x.yaml", quotaYAML("x.yaml", 1), true), g.quotaEntry(s, 1, 2))
+	add("name-escaping-through-a-sub-directory", 1, g.flowEntry(s, 2, 3, true),
+		g.dirEntry(s, aPathParams, "a/../../b.yaml", pathParamsYAML("b.yaml", 1), true), g.ppEntry(s, 1, 2))
+	add("name-escaping-three-levels", 1, g.dirEntry(s, aFlows, "../../../up3.yaml", "up: 3\n", true), g.flowEntry(s, 1, 3, true),
+		g.flowEntry(s, 2, 3, true), g.flowEntry(s, 3, 3, true))
+	add("name-onto-the-gateway-file", 1, g.dirEntry(s, aFlows, "../gateway_config.yaml", gatewayYAML(3), true),
+		g.flowEntry(s, 2, 2, true), g.quotaEntry(s, 2, 1))
+	add("name-onto-the-gateway-file-bad-quota", 1, g.dirEntry(s, aFlows, "../gateway_config.yaml", gatewayYAML(3), true),
+		g.dirEntry(s, aQuotas, quotaRel(2), badQuotaYAML(quotaRel(2)), true))
+	add("name-is-the-directory", 1, g.flowEntry(s, 1, 2, true), g.dirEntry(s, aQuotas, ".", quotaYAML("dot.yaml", 1), true))
+	add("name-is-the-empty-directory", 2, g.flowEntry(s, 1, 2, true), g.dirEntry(s, aPathParams, "sub/..", pathParamsYAML("dot.yaml", 1), true))
+	withOutside := func() []Ent {
+		d := append(g.baseDisk(s, 1), g.ent(s, aOutside, "outside/evil.yaml", "precious: true\n"),
+			g.ent(s, aOutside, "cfg/x.yaml", "precious: 2\n"))
+		sortEnts(d)
+		return d
+	}
+	for _, h := range []string{"configuration", "apply_flows"} {
+		out = append(out, triple{"name-onto-an-existing-outside-file", h, http.MethodPut, true, withOutside(), []PEntry{
+			g.flowEntry(s, 1, 2, true), g.flowEntry(s, 2, 2, true),
+			g.dirEntry(s, aFlows, "../../outside/evil.yaml", "evil: true\n", true)}})
+		out = append(out, triple{"name-onto-an-existing-outside-file-bad-flow", h, http.MethodPut, true, withOutside(), []PEntry{
+			g.badFlowEntry(s, 2, 1), g.dirEntry(s, aQuotas, "../x.yaml", "evil: 2\n", true),
+			g.dirEntry(s, aFlows, "../../outside/evil.yaml", "evil: true\n", true)}})
+	}
+	// odd names that stay inside their directory: accepted, exactly as before the name check
+	oddInside := func(bad bool) []PEntry {
+		p := []PEntry{
+			g.dirEntry(s, aFlows, "./"+flowRel(3), flowYAML(flowRel(3), 2), true),
+			g.dirEntry(s, aFlows, "a/../"+flowRel(4), flowYAML(flowRel(4), 1), true),
+			g.dirEntry(s, aFlows, "/"+flowRel(1), flowYAML(flowRel(1), 3), true),
+			g.dirEntry(s, aFlows, "../flows/"+flowRel(2), flowYAML(flowRel(2), 3), true),
+			g.dirEntry(s, aQuotas, "sub/q5.yaml", quotaYAML("q5.yaml", 1), true),
+			g.dirEntry(s, aQuotas, "./q6.yaml", quotaYAML("q6.yaml", 1), true),
+			g.dirEntry(s, aQuotas, "/abs/q8.yaml", quotaYAML("q8.yaml", 1), true),
+			g.dirEntry(s, aQuotas, "..q9.yaml", quotaYAML("q9.yaml", 1), true),
+			g.dirEntry(s, aPathParams, "deep/er/p2.yaml", pathParamsYAML("p2.yaml", 1), true),
+			g.dirEntry(s, aPathParams, "a/b/../../p1.yaml", pathParamsYAML("p1.yaml", 3), true),
+		}
+		if bad {
+			p = append(p[2:7], g.dirEntry(s, aQuotas, "a/../"+quotaRel(2), badQuotaYAML(quotaRel(2)), true))
+		}
+		return p
+	}
+	add("odd-names-inside", 1, oddInside(false)...)
+	add("odd-names-inside-bad-quota", 1, oddInside(true)...)
 	withSub := func() []Ent {
 		d := append(g.baseDisk(s, 1), g.ent(s, aQuotas, "sub/q3.yaml", quotaYAML("q3.yaml", 1)))
 		sortEnts(d)
@@ -322,9 +360,28 @@ func (g *gen) random(s *sut) triple {
 		t.payload = append(t.payload, g.dirEntry(s, aFlows, "../quotas/q2.yaml", quotaYAML(quotaRel(2), g.r.Range(1, 3)), true))
 		t.label = "random-sibling-name"
 	}
-	if g.r.Chance(1, 12) {
-		t.payload = append(t.payload, g.dirEntry(s, aPathParams, "../../outside/x.yaml", "x: 1\n", true))
+	if g.r.Chance(1, 6) {
+		src := c.Pick(g.r, []int{aFlows, aQuotas, aPathParams})
+		name := c.Pick(g.r, []string{"../x.yaml", "../../outside/x.yaml", "a/../../b.yaml", "../../../up3.yaml",
+			"../gateway_config.yaml", "../metrics.yaml", ".", "../quotas/q1.yaml", "../flows/f9/../../flows/../f2.yaml"})
+		// a content that is fine for the field, should the name resolve into its own directory after all
+		content := map[int]string{aFlows: flowYAML("f8.yaml", g.r.Range(1, 3)), aQuotas: quotaYAML("x8.yaml", g.r.Range(1, 3)),
+			aPathParams: pathParamsYAML("x8.yaml", g.r.Range(1, 3))}[src]
+		t.payload = append(t.payload, g.dirEntry(s, src, name, content, true))
 		t.label = "random-escaping-name"
+	}
+	if g.r.Chance(1, 6) {
+		v := g.r.Range(1, 3)
+		t.payload = append(t.payload, c.Pick(g.r, []PEntry{
+			g.dirEntry(s, aFlows, "./"+flowRel(2), flowYAML(flowRel(2), v), true),
+			g.dirEntry(s, aFlows, "a/../"+flowRel(3), flowYAML(flowRel(3), v), true),
+			g.dirEntry(s, aFlows, "/"+flowRel(4), flowYAML(flowRel(4), v), true),
+			g.dirEntry(s, aQuotas, "sub/q5.yaml", quotaYAML("q5.yaml", v), true),
+			g.dirEntry(s, aQuotas, "/abs/"+quotaRel(1), quotaYAML("q8.yaml", v), true),
+			g.dirEntry(s, aQuotas, "..q9.yaml", quotaYAML("q9.yaml", v), true),
+			g.dirEntry(s, aPathParams, "a/b/../../"+ppRel(1), pathParamsYAML(ppRel(1), v), true),
+		}))
+		t.label += "-odd-inside-name"
 	}
 	if g.r.Chance(1, 25) {
 		t.method = http.MethodPost
@@ -351,14 +408,16 @@ func (g *gen) random(s *sut) triple {
 			}
 		}
 	}
-	// one entry per target (a JSON object has one value per key)
+	// one entry per name (a JSON object has one value per key) and per target
+	// (two names of one field resolving to one file: which content wins depends
+	// on Go's map order and cannot be read off the hook calls)
 	seen := map[string]bool{}
 	var p []PEntry
 	for i := len(t.payload) - 1; i >= 0; i-- {
 		e := t.payload[i]
-		key := fmt.Sprintf("%d/%s", e.Src, e.Name)
-		if !seen[key] {
-			seen[key] = true
+		key, tkey := fmt.Sprintf("n%d/%s", e.Src, e.Name), fmt.Sprintf("t%d/%d/%s", e.Src, e.TArea, e.TRel)
+		if !seen[key] && !seen[tkey] {
+			seen[key], seen[tkey] = true, true
 			p = append([]PEntry{e}, p...)
 		}
 	}
@@ -422,7 +481,7 @@ func (g *gen) rebuild(s *sut, k *Case) {
 func generate(o *c.Out, s *sut) {
 	g := newGen(o.Rng.Fork(8))
 	triples := g.fixed(s)
-	for i := 0; i < o.Scale(24, 560, 150); i++ {
+	for i := 0; i < o.Scale(12, 500, 150); i++ {
 		triples = append(triples, g.random(s))
 	}
 	for _, t := range triples {
